@@ -12,5 +12,6 @@ Useful == /\ (~opened /\ ~HasClose => Len(log) <= 2)      \* at most two reads b
                                                             /\ (i + 2 <= Len(log) => log[i + 1].op = "rewind" \/ log[i + 2].op = "rewind")
           /\ \A i \in 1..(Len(log) - 1) : ~(log[i].op = "data" /\ log[i+1].op = "data")
           /\ (~c.rec => Cardinality({i \in 1..Len(log) : log[i].op = "rewind"}) <= 1 /\ Cardinality({i \in 1..Len(log) : log[i].op = "data"}) <= 1)
+UsefulNoClose == Useful /\ ~HasClose            \* the large thorough bound is explored without close(); close() gets a bound of its own
 Export == (Len(log) = MaxOps) => PrintT(ToJson([c |-> c, log |-> log, closed |-> ~StartedOpen]))
 =========================================================================
